@@ -78,10 +78,17 @@ def run(repo, rep, tier):
     m3 = re.search(r'\(\[\^\\s\]\*\)', pattern)
     rep.check('inclusion', 'the software group is a run of non-space characters', m3 is not None, rxb, 'software group is no longer ([^\\s]*)')
     # RX_PROTOCOL: derived from _RXP by wrapping the digit runs in groups
-    ok = isinstance(rxpr, ast.Call) and unparse(rxpr.func) == 're.compile' and isinstance(rxpr.args[0], ast.Call) and unparse(rxpr.args[0].func) == 're.sub'
+    def deref(e):
+        # a class-level name bound to an expression stands for that expression
+        seen = 0
+        while isinstance(e, ast.Name) and class_const_expr(bcls, e.id) is not None and seen < 4:
+            e = class_const_expr(bcls, e.id)
+            seen += 1
+        return e
+    ok = isinstance(rxpr, ast.Call) and unparse(rxpr.func) == 're.compile' and isinstance(deref(rxpr.args[0]), ast.Call) and unparse(deref(rxpr.args[0]).func) == 're.sub'
     proto_pattern = None
     if ok:
-        sub = rxpr.args[0]
+        sub = deref(rxpr.args[0])
         try:
             a, b, c = [ce.eval_in(x, 'banner', 'Banner') for x in sub.args[:3]]
             proto_pattern = re.sub(a, b, c)       # stdlib re applied to constants of the pattern algebra (not repo code)
